@@ -776,6 +776,13 @@ func (w *Wallet) swapToTrusted(proofs cashu.Proofs, mint *walletMint) (uint64, e
 		if err != nil {
 			return 0, fmt.Errorf("could not swap proofs: %v", err)
 		}
+		// the outputs of the swap were derived from the counter of the keyset
+		if w.db.GetKeyset(req.keyset.Id) != nil {
+			err = w.db.IncrementKeysetCounter(req.keyset.Id, uint32(len(req.outputs)))
+			if err != nil {
+				return 0, fmt.Errorf("error incrementing keyset counter: %v", err)
+			}
+		}
 		proofsToSwap = newProofs
 	}
 
